@@ -144,4 +144,8 @@ pub struct FilterValidResolved;
 #[verifier::external_body]
 #[verifier::reject_recursive_types(S)]
 pub struct Filter<S> { p: core::marker::PhantomData<S> }
-pub struct AccessControlProfile { pub name: String }
+// access/profiles.rs: the profile header (who it applies to, which entries it targets) — real types
+pub struct FilterValid;
+//@extract AccessControlReceiver
+//@extract AccessControlTarget
+//@extract AccessControlProfile
